@@ -6,7 +6,7 @@ import json
 import sys
 
 
-def ask(text: str, per_ms: int) -> str:
+def ask(text: str, per_ms: int, model_of: str = "") -> str:
     import cvc5
     from cvc5 import InputParser, SymbolManager
     slv = cvc5.Solver()
@@ -14,6 +14,9 @@ def ask(text: str, per_ms: int) -> str:
     slv.setOption("tlimit-per", str(per_ms))
     sm = SymbolManager(slv)
     p = InputParser(slv, sm)
+    if model_of:
+        slv.setOption("produce-models", "true")
+        text = text + "\n(get-value (" + model_of + "))\n"
     p.setStringInput(cvc5.InputLanguage.SMT_LIB_2_6, "(set-logic ALL)\n" + text, "q")
     last = "unknown"
     while True:
@@ -24,7 +27,11 @@ def ask(text: str, per_ms: int) -> str:
         if out in ("sat", "unsat", "unknown"):
             last = out
         elif out.startswith("(error"):
+            if last == "sat" or last == "unsat":
+                return last       # e.g. get-value after unsat
             return "error: " + out[:200]
+        elif model_of and last == "sat" and out.startswith("(("):
+            return "sat " + out
     return last
 
 
@@ -33,7 +40,7 @@ def main():
     res = []
     for q in job["queries"]:
         try:
-            res.append(ask(q["smt2"], int(job.get("per_ms", 15000))))
+            res.append(ask(q["smt2"], int(job.get("per_ms", 15000)), q.get("model_of", "")))
         except Exception as e:   # parse errors and the like: inconclusive, never a verdict
             res.append("error: " + repr(e)[:200])
         sys.stdout.write(json.dumps(res) + "\n")
